@@ -233,6 +233,52 @@ def run_layers(name, case, layers=None, psi=None):
     return canon_vec(out), out, psi.tobytes() == before
 
 
+def reuse_sequence(rng, name, n, mn=3, op=4):
+    """one backend OBJECT serving several statevector() calls: (1) a layer list, (2) the same list after two of its matrix
+    objects were updated in place (a non-identity becomes the exact identity, an identity becomes a non-identity),
+    (3) several calls with freshly allocated, immediately discarded matrices.  Every call must return the layered
+    Kronecker product of the values it is given at that moment (oracle_factor).  Returns None or a failure text."""
+    import copy
+    shapes = [rand_shape(rng, n), rand_shape(rng, n)]
+    case = build_case(rng, n, shapes, id_prob=0.4, mn=mn, op=op)
+    case["mats"] = [np.array(M, dtype=complex) for M in case["mats"]]          # private objects (the shared ID2 stays untouched)
+    be = make_backend(name, n, mn, op)
+    layers = py_layers(case)
+
+    def call(tag):
+        want = oracle_factor(case)
+        try:
+            got = be.statevector(layers, case["psi"].copy())
+        except Exception as e:                  # noqa
+            return f"{tag}: raised {type(e).__name__}: {str(e)[:100]}"
+        got = np.asarray(got)
+        if got.shape != want.shape or not np.allclose(got.astype(complex), want, rtol=0, atol=1e-9):
+            return f"{tag}: the returned vector differs from the layered Kronecker product by {np.max(np.abs(got.astype(complex) - want)):.3e}"
+        return None
+    bad = call("first call")
+    if bad:
+        return bad, case
+    used2 = sorted({k for l in case["layers"] for k in l if k >= 0 and case["mats"][k].shape == (2, 2)})
+    ids = [k for k in used2 if np.array_equal(case["mats"][k], ID2)]
+    non = [k for k in used2 if not np.array_equal(case["mats"][k], ID2)]
+    if non:
+        case["mats"][non[0]][:, :] = ID2                                       # in place: now exactly the identity
+    if ids:
+        case["mats"][ids[0]][:, :] = rand_m(rng, 2)                            # in place: no longer the identity
+    bad = call("second call on the same backend object after two matrix objects were updated in place")
+    if bad:
+        return bad, case
+    for shot in range(6):
+        case2 = build_case(rng, n, [rand_shape(rng, n)], id_prob=0.5, mn=mn, op=op)
+        case2["mats"] = [np.array(M, dtype=complex) for M in case2["mats"]]
+        case, layers = case2, py_layers(case2)
+        bad = call(f"call {shot + 3} on the same backend object with freshly allocated matrices")
+        if bad:
+            return bad, case
+        del case2
+    return None, None
+
+
 class PassThroughOptimizer:
     """stand-in for circ_optimizer.Optimizer that returns the list unchanged: separates the backend's own operator
     construction (C01, backend.py) from the optimizer's fusion (C02)"""
